@@ -364,6 +364,51 @@ def compare(c, rng=None, max_pairs: int = 40, max_vis_photons: int = 2, tol: flo
     return "compared", problems
 
 
+def described_distribution(c, occ_vis, max_patterns: int = 2500):
+    """What the circuit *as the user built it* (the wire model, not ``c.U_full``) does to the visible input ``occ_vis``:
+    {visible output pattern: probability that the output heralds are met and exactly this pattern leaves the visible
+    modes}, loss wires traced out. Returns (dist, n_loss_patterns_per_key, n_loss_wires) or None when there is no usable
+    model (no shadow, tainted, invalid parameter, too large)."""
+    sh = shadow_of(c)
+    if sh is None or sh.tainted:
+        return None
+    try:
+        t, idx = sh.matrix()
+    except ShadowInvalid:
+        return None
+    siv, sov = sh.in_vis(), sh.out_vis()
+    if len(siv) != len(occ_vis):
+        return None
+    hin, hout = sh.h_in(), sh.h_out()
+    cols = [(idx[w], int(x)) for w, x in zip(siv, occ_vis)] + [(idx[w], x) for w, x in hin.items()]
+    taken = {idx[w] for w in sov} | {idx[w] for w in hout}
+    lossw = [i for i in range(t.shape[0]) if i not in taken]
+    n_left = sum(occ_vis) + sum(hin.values()) - sum(hout.values())
+    if n_left < 0:
+        return {}, {}, len(lossw)
+    total = sum(boson.n_fock(len(sov), nv) * boson.n_fock(len(lossw), n_left - nv) for nv in range(n_left + 1)
+                if lossw or nv == n_left)
+    if total > max_patterns or sum(occ_vis) + sum(hin.values()) > MAX_COMPARE_PHOTONS:
+        return None
+    h_rows = [(idx[w], x) for w, x in hout.items()]
+    dist, npat = {}, {}
+    for nv in range(n_left + 1):
+        nl = n_left - nv
+        if nl and not lossw:
+            continue
+        for vis in boson.fock(len(sov), nv):
+            rows_v = [(idx[w], x) for w, x in zip(sov, vis)] + h_rows
+            pr = 0.0
+            lps = boson.fock(len(lossw), nl) if lossw else [()]
+            for lp in lps:
+                a = boson.amp_idx(t, cols, rows_v + [(i, x) for i, x in zip(lossw, lp)])
+                pr += abs(a) ** 2
+            dist[tuple(vis)] = pr
+            npat[tuple(vis)] = len(lps)
+    STATS["described_distributions"] += 1
+    return dist, npat, len(lossw)
+
+
 def scribble_probe(c):
     """Reads U_full and U, overwrites the returned arrays in place and reads again: the circuit must report the
     same matrices as before (what the API returns must not alias internal state). Returns a problem string or None."""
